@@ -1246,6 +1246,7 @@ impl HnswBackend {
         let mut snapshot_last_wal_seq = 0u64;
         let mut snapshot_timestamp = 0u64;
         let mut max_wal_seq = 0u64;
+        let mut snapshot_from_fallback = false;
 
         if let Some(snapshot_name) = &manifest.latest_snapshot {
             let snapshot_path = data_dir.join(snapshot_name);
@@ -1306,6 +1307,7 @@ impl HnswBackend {
                     }
 
                     if recovered_from_fallback {
+                        snapshot_from_fallback = true;
                         warn!(
                             documents = documents.len(),
                             "snapshot loaded from fallback (primary corrupted)"
@@ -1335,6 +1337,17 @@ impl HnswBackend {
                 }
             }
         }
+
+        // A fallback snapshot is older than the one the MANIFEST committed. WAL segments fully
+        // covered by the committed snapshot may already have been compacted away, so the
+        // fallback is only complete if the retained WAL still reaches back to it.
+        let fallback_needs_seq = match manifest.latest_snapshot_wal_seq {
+            Some(committed_seq) if snapshot_from_fallback && snapshot_last_wal_seq < committed_seq => {
+                Some(snapshot_last_wal_seq.saturating_add(1))
+            }
+            _ => None,
+        };
+        let mut fallback_gap_covered = false;
 
         // Replay WAL segments (skip entries already captured in snapshot)
         for wal_name in &manifest.wal_segments {
@@ -1371,6 +1384,9 @@ impl HnswBackend {
             for entry in entries {
                 if entry.seq_no > max_wal_seq {
                     max_wal_seq = entry.seq_no;
+                }
+                if fallback_needs_seq == Some(entry.seq_no) {
+                    fallback_gap_covered = true;
                 }
 
                 // Skip entries already captured in snapshot (sequence-based)
@@ -1435,6 +1451,18 @@ impl HnswBackend {
                 wal_segment = wal_name,
                 "wal replay complete"
             );
+        }
+
+        if let (Some(needed_seq), RecoveryMode::Strict) = (fallback_needs_seq, recovery_mode) {
+            if !fallback_gap_covered {
+                anyhow::bail!(
+                    "strict recovery mode: fallback snapshot ends at WAL seq {} but the committed snapshot \
+                     covers seq {} and WAL entry {} is no longer retained; refusing to start with missing writes",
+                    snapshot_last_wal_seq,
+                    manifest.latest_snapshot_wal_seq.unwrap_or(0),
+                    needed_seq
+                );
+            }
         }
 
         // Rebuild HNSW index from recovered documents.
